@@ -172,14 +172,9 @@ def _corr_ctl(ctx, out):
 
     rng = ctx.subrng("corr-ctl")
     reqs, reals = [], []
-    xexit_as = "xexit"
-    if ct.exceptional_exit_restores():
-        xexit_as = "exit"
-        ctx.notes.append("updates_postponed() restores the flag when left by an exception (repaired tree): "
-                         "exceptional exits are model `exit` events, covered by controller_consistent_partial")
     for _ in range(ctx.budget(400, 6000)):
         c = ct.rand_ctl_case(rng)
-        rq, init, steps = ct.run_real_ctl(c, xexit_as)
+        rq, init, steps = ct.run_real_ctl(c)
         reqs.append(("ctl", rq))
         reals.append((init, steps))
     for (_, rq), (init, steps), m in zip(reqs, reals, ctx.driver.batch(reqs)):
